@@ -281,6 +281,15 @@ pub fn run_sessions(cfg: &ScenCfg, out: &mut RunOut) {
                             out.violate("C15", "server_task_survives_shutdown", "server task still running after shutdown()".into());
                             return;
                         }
+                    } else if cfg.faults && chance(1, 3) {
+                        // the application cancels the server task itself (JoinHandle::abort): everything the task
+                        // owned - listener, session records - is dropped, which must end the sessions as well
+                        r.task.abort();
+                        kernel::settle();
+                        trace.push("abort server task".into());
+                        kernel::count("fault_cancel_task");
+                        out.probe("server_task_aborted");
+                        drop(r.handle);
                     } else {
                         let task = r.task;
                         drop(r.handle);
